@@ -60,7 +60,10 @@ F_LIB = "join/src/lib.rs"
 M_OF_COMB = "meaning_of_ctor(parse_table({c}).1)"
 
 
-def build_plan(repo):
+MODULES = ["core", "optable", "entries"]
+
+
+def common_units():
     u = []
     u.append(raw("header", "#![allow(unused_imports, unused_variables, unused_mut, dead_code, unused_parens, unused_braces, non_snake_case)]\nuse vstd::prelude::*;\nverus! {\n"))
     u.append(raw("prelude", _read("prelude.rs")))
@@ -87,6 +90,7 @@ def build_plan(repo):
     u.append(table("names", F_NC, "names"))
     u.append(table("quote_idents", F_PE, "qi"))
     u.append(raw("specs_bridge", _read("specs_bridge.rs")))
+    u.append(raw("specs_lemma_defs", _read("lemma_defs.rs")))
 
     # ------------------------------------------------------------------ derived Clone (A5)
     u.append(raw("clone_specs", """
@@ -100,17 +104,12 @@ pub assume_specification [<MoveType as PartialEq>::eq] (a: &MoveType, b: &MoveTy
 pub assume_specification [<ApplicationType as PartialEq>::eq] (a: &ApplicationType, b: &ApplicationType) -> (r: bool) ensures r == (*a == *b);
 """))
 
-    # ------------------------------------------------------------------ Combinator predicates
-    u.append(fns(F_COMB, [
-        fn("is_err_expr", "r", ensures=["r == (parse_table(self).1 is ErrExpr)"]),
-        fn("is_initial_expr", "r", ensures=["r == (parse_table(self).1 is InitialExpr)"]),
-        fn("is_process_expr", "r", ensures=["r == (parse_table(self).1 is ProcessExpr)"]),
-        # C02: exactly the ten documented wrapper-capable operators
-        fn("can_be_wrapper", "r", ensures=["r == doc_wrapper_meaning(%s)" % M_OF_COMB.format(c="self")]),
-    ], self_ty="Combinator"))
+    # ------------------------------------------------------------------ InnerExpr trait (contracts shared by all modules)
+    u.append(TRAIT_INNER_EXPR)
+    return u
 
-    # ------------------------------------------------------------------ InnerExpr trait + impls
-    u.append({"kind": "trait", "file": F_EMOD, "name": "InnerExpr", "header": "pub trait InnerExpr: Sized",
+
+TRAIT_INNER_EXPR = {"kind": "trait", "file": F_EMOD, "name": "InnerExpr", "header": "pub trait InnerExpr: Sized",
               "extra": """    /// ghost: expression operands, in source order
     spec fn operands(&self) -> Seq<Expr>;
     /// ghost: which operator this is
@@ -127,8 +126,21 @@ pub assume_specification [<ApplicationType as PartialEq>::eq] (a: &ApplicationTy
                       "self.operands().len() == 0 ==> r is None",
                   ]),
                   fn("is_replaceable", "r"),
-              ]})
+              ]}
 
+
+def core_units():
+    u = []
+    # ------------------------------------------------------------------ Combinator predicates
+    u.append(fns(F_COMB, [
+        fn("is_err_expr", "r", ensures=["r == (parse_table(self).1 is ErrExpr)"]),
+        fn("is_initial_expr", "r", ensures=["r == (parse_table(self).1 is InitialExpr)"]),
+        fn("is_process_expr", "r", ensures=["r == (parse_table(self).1 is ProcessExpr)"]),
+        # C02: exactly the ten documented wrapper-capable operators
+        fn("can_be_wrapper", "r", ensures=["r == doc_wrapper_meaning(%s)" % M_OF_COMB.format(c="self")]),
+    ], self_ty="Combinator"))
+
+    # ------------------------------------------------------------------ InnerExpr impls
     u.append(fns(F_PE, [
         fn("inner_exprs", "r"),
         fn("replace_inner_exprs", "r", closures={
@@ -261,22 +273,39 @@ pub assume_specification [<ApplicationType as PartialEq>::eq] (a: &ApplicationTy
                  ensures=["r.name() == construct_expr_wrapper_name_spec(index, expr_index, internal_index)"]))
     u.append(fns(F_NC, fl))
 
-    u.append(raw("lemmas", _read("lemmas.rs")))
+    return u
+
+
+def build_plan(repo, module):
+    u = common_units()
+    optargs = {}
+    if module == "core":
+        u += core_units()
+    elif module == "optable":
+        u.append(raw("lemma", _read("lemma_optable.rs")))
+    elif module == "entries":
+        u.append(raw("lemma", _read("lemma_entries.rs")))
+    else:
+        raise KeyError(module)
     u.append(raw("footer", "} // verus!\nfn main() {}\n"))
-    return {"repo": repo, "units": u, "optargs": {}}
+    return {"repo": repo, "units": u, "optargs": optargs}
 
 
-# property -> Verus functions carrying it (suffix match on the function name in --output-json)
+# property -> [(module, Verus function name as in --output-json without the crate prefix)]
 OBLIGATIONS = {
-    "C01": ["<ProcessExpr as ToTokens>::to_tokens", "<ErrExpr as ToTokens>::to_tokens",
-            "<InitialExpr as ToTokens>::to_tokens", "lemma_operator_tables", "lemma_process_toks",
-            "lemma_err_toks", "lemma_initial_toks"],
-    "C02": ["Combinator::can_be_wrapper", "ActionGroup::to_wrapper_action_expr",
-            "<ProcessExpr as InnerExpr>::replace_inner_exprs", "<ErrExpr as InnerExpr>::replace_inner_exprs",
-            "<ActionExpr as InnerExpr>::replace_inner_exprs", "<ExprGroup as InnerExpr>::replace_inner_exprs"],
-    "C07": ["lemma_entry_table"],
-    "C11": ["<ProcessExpr as InnerExpr>::is_replaceable", "<ProcessExpr as InnerExpr>::inner_exprs",
-            "<ProcessExpr as InnerExpr>::replace_inner_exprs", "<ErrExpr as InnerExpr>::inner_exprs",
-            "<ErrExpr as InnerExpr>::replace_inner_exprs", "<InitialExpr as InnerExpr>::inner_exprs",
-            "<InitialExpr as InnerExpr>::replace_inner_exprs"],
+    "C01": [("core", "ProcessExpr::to_tokens"), ("core", "ErrExpr::to_tokens"), ("core", "InitialExpr::to_tokens"),
+            ("optable", "lemma_operator_tables"),
+            # operator identity survives hoisting a block operand / splicing a wrapper closure
+            ("core", "ProcessExpr::replace_inner_exprs"), ("core", "ErrExpr::replace_inner_exprs"),
+            ("core", "InitialExpr::replace_inner_exprs"), ("core", "ActionExpr::replace_inner_exprs")],
+    "C02": [("core", "Combinator::can_be_wrapper"), ("core", "ActionGroup::to_wrapper_action_expr"),
+            ("core", "ProcessExpr::replace_inner_exprs"), ("core", "ErrExpr::replace_inner_exprs"),
+            ("core", "InitialExpr::replace_inner_exprs"), ("core", "ActionExpr::replace_inner_exprs"),
+            ("core", "ExprGroup::replace_inner_exprs")],
+    "C07": [("entries", "lemma_entry_table")],
+    "C11": [("core", "ProcessExpr::is_replaceable"), ("core", "ProcessExpr::inner_exprs"),
+            ("core", "ProcessExpr::replace_inner_exprs"), ("core", "ErrExpr::inner_exprs"),
+            ("core", "ErrExpr::replace_inner_exprs"), ("core", "InitialExpr::inner_exprs"),
+            ("core", "InitialExpr::replace_inner_exprs"), ("core", "ActionExpr::inner_exprs"),
+            ("core", "ExprGroup::inner_exprs"), ("core", "ExprGroup::is_replaceable")],
 }
